@@ -3,6 +3,7 @@
 properties whose units extract the touched file, undo.  A VIOLATION (exit 1) on such a patch is a false alarm;
 exit 2 (UNDECIDED: e.g. a renamed local that a loop contract names) is tolerated but listed."""
 import glob, json, os, re, subprocess, sys
+os.environ['VERIF_EVIDENCE_DIR'] = os.path.join(os.path.dirname(os.path.abspath(__file__)), 'build', 'evidence_scratch')   # never overwrite committed evidence with runs on a patched tree
 V = os.path.dirname(os.path.abspath(__file__))
 
 
